@@ -453,7 +453,16 @@ C12_frame(step) ==
         /\ h \in DOMAIN step.post.con
         /\ step.post.con[h] = step.pre.con[h]
         /\ (IsLoose(step.pre, h) \/ h \in NsOwned(step) \/ step.post.ns[h] = step.pre.ns[h]))
-C12Clauses(step) == IF "con" \in DOMAIN step.pre THEN {C12_frame(step)} ELSE {}
+(* deserialisation returns a new object each time: step.fresh (harness/roundtrip.freshness) logs  *)
+(* whether a second read of the same text is a distinct object, whether it looks exactly as      *)
+(* before after every kind of follow-up modification of the first, and whether a third read     *)
+(* still returns that content                                                                   *)
+C12_reload(step) ==
+  Cl("C12_reload", step.op.op = "RT" /\ "fresh" \in DOMAIN step,
+     LET f == step.fresh IN
+     f.exc = "none" /\ f.distinct /\ f.frame /\ f.again)
+C12Clauses(step) == (IF "con" \in DOMAIN step.pre THEN {C12_frame(step)} ELSE {})
+                    \cup (IF step.op.op = "RT" /\ "fresh" \in DOMAIN step THEN {C12_reload(step)} ELSE {})
 
 -----------------------------------------------------------------------------
 (* C04 — document equality is an equivalence that coincides with content     *)
